@@ -1075,6 +1075,61 @@ def _(ctx):
     return opt(ne, head)
 
 
+def drop_last(it, st, s):
+    """the stream without its last element (meaningful when it is non-empty)"""
+    k = s.kind
+    one = iconst(1)
+    if k == 'src':
+        sl, mode = s.parts
+        return Stream('src', (SliceRef(sl.root, sl.path, sl.start, it.isub(sl.end, one), sl.mut), mode))
+    if k == 'range':
+        return Stream('range', (s.parts[0], it.isub(s.parts[1], one)))
+    if k in ('cloned',):
+        return Stream(k, (drop_last(it, st, s.parts[0]),))
+    if k in ('map', 'enumerate', 'skip'):
+        return Stream(k, (drop_last(it, st, s.parts[0]),) + tuple(s.parts[1:]))
+    if k == 'zip':
+        from .terms import NF
+        nf = NF()
+        a, b = s.parts
+        if not nf(stream_len(it, st, a)).equals(nf(stream_len(it, st, b))):
+            raise Unsupported('back of a zip of streams of different lengths')
+        return Stream('zip', (drop_last(it, st, a), drop_last(it, st, b)))
+    if k == 'lit':
+        return Stream('lit', tuple(s.parts[:-1]))
+    if k == 'rev':
+        return Stream('rev', (stream_tail(it, st, s.parts[0]),))
+    raise Unsupported('back of stream %s' % k)
+
+
+@model('std::iter::DoubleEndedIterator::next_back')
+def _(ctx):
+    it = ctx.interp
+    cell = ctx.args[0]
+    if not isinstance(cell, Ref):
+        raise Unsupported('next_back on %s' % type(cell).__name__)
+    s = it.read(ctx.state, cell.root, cell.path)
+    if not isinstance(s, Stream):
+        raise Unsupported('next_back on %s' % type(s).__name__)
+    ne = stream_nonempty(it, ctx.state, s)
+    if ne == FALSE:
+        return none()
+    n = stream_len(it, ctx.state, s)
+    last = stream_elem(ctx, s, it.isub(n, iconst(1)))
+    it.write(ctx.state, cell.root, cell.path, drop_last(it, ctx.state, s))
+    return opt(ne, last)
+
+
+@model('<f64>::next_up')
+def _(ctx):
+    return ('fcall', 'next_up', scalar(ctx, ctx.args[0]))
+
+
+@model('<f64>::next_down')
+def _(ctx):
+    return ('fcall', 'next_down', scalar(ctx, ctx.args[0]))
+
+
 def _search_base(ctx, s):
     """strip a leading rev: returns (inner stream, reversed?)"""
     if s.kind == 'rev':
